@@ -905,6 +905,24 @@ def x_instr_dump(co, opc, max_code=None, dup_lines=False):
     except Exception as e:
         res["shift_bad"] = ["raised %s: %s" % (type(e).__name__, e)]
     try:
+        # metamorphic: the same code object with every local renamed resolves LOAD_FAST & co. to the new names
+        if hasattr(co, "replace") and getattr(co, "co_varnames", None) and opc.version_tuple >= (3, 0) and len(code) <= 400:
+            new = tuple((n_ + "_r") if isinstance(n_, str) else n_ for n_ in co.co_varnames)
+            co3 = co.replace(co_varnames=new)
+            old2new = dict(zip(co.co_varnames, new))
+            bad = None
+            a_ = list(x.bytecode.Bytecode(co, opc))
+            b_ = list(x.bytecode.Bytecode(co3, opc))
+            for i_, j_ in zip(a_, b_):
+                if i_.opcode in opc.LOCAL_OPS and isinstance(i_.argval, str) and i_.argval in old2new and j_.argval != old2new[i_.argval]:
+                    if i_.argval in getattr(co, "co_cellvars", ()) or i_.argval in getattr(co, "co_freevars", ()):
+                        continue
+                    bad = "at %d %s: %r before, %r after renaming to %r" % (i_.offset, i_.opname, i_.argval, j_.argval, old2new[i_.argval])
+                    break
+            res["rename_bad"] = bad
+    except Exception as e:
+        res["rename_bad"] = "raised %s: %s" % (type(e).__name__, e)
+    try:
         # the second, independent operand decoder inside xdis (used by the label finders)
         if opc.version_tuple >= (3, 10):
             unp = x.cross_dis.unpack_opargs_bytecode_310(code, opc)
@@ -1723,6 +1741,13 @@ def do_hist_op(op):
             txt2 = _norm_addr(out2.getvalue())
             return {"text": _digest(txt), "flags": [ln for ln in txt.splitlines() if ln.startswith("Flags")][:1],
                     "stdout_text": _digest(txt2), "stdout_flags": [ln for ln in txt2.splitlines() if ln.startswith("Flags")][:1]}
+        if k == "labels":
+            t = x.load.load_module(fpath(op["f"]))
+            opc = x.disasm.get_opcode(t[0], t[4])
+            out = []
+            for c in x_walk_codes(t[3]):
+                out.append(sorted(opc.findlabels(c.co_code, opc)))
+            return {"labels": out[:40]}
         if k == "tables":
             seen = {}
             for key, m in x.op_imports.op_imports.items():
